@@ -20,3 +20,60 @@ Theorem longest_prefix_pq_none : forall s plat inst,
   forall q, In q (s_pqs s) -> pk_plat (p_key q) = plat -> is_prefix (pk_prefix (p_key q)) inst = false.
 Proof. exact longest_prefix_pq_none. Qed.
 Print Assumptions longest_prefix_pq_none.
+
+(* Two matching prefixes of equal length are the same prefix: the longest
+   match is unique among queues with distinct keys. *)
+Theorem is_prefix_same_length : forall a b l,
+  is_prefix a l = true -> is_prefix b l = true -> List.length a = List.length b -> a = b.
+Proof. exact is_prefix_same_length. Qed.
+Print Assumptions is_prefix_same_length.
+
+(* exec_routes_longest_prefix: an Execute request that is not deduplicated
+   and for which a platform queue matches creates exactly one task (index
+   s_ntasks) and one operation (index s_nops); the task sits in the size class
+   queue (longest-prefix platform queue, size class selected by the
+   selector), keeps the request's digest and carries the instance name minus
+   the queue's prefix as suffix -- also after task.schedule handed it to a
+   waiting worker or queued it.
+   Hypothesis aget (s_ntasks s) (s_tasks s) = None: the next task index is
+   unused (holds in every reachable state; invariant not yet proved here). *)
+Theorem exec_routes_longest_prefix : forall c a s p,
+  aget dkey_eqb (x_instance a, x_digest a) (s_inflight s) = None ->
+  longest_prefix_pq s (x_plat a) (x_instance a) = Some p ->
+  aget Nat.eqb (s_ntasks s) (s_tasks s) = None ->
+  let k := mkSK (p_key p) (nth (fst (fst (fst (x_sel a)))) (p_scs p) 0%N) in
+  let t := s_ntasks s in
+  let s' := exec_start c a s in
+  s_ntasks s' = S t /\ s_nops s' = S (s_nops s) /\
+  (t_suffix (get_task s' t) = drop_prefix (pk_prefix (p_key p)) (x_instance a) /\
+   t_instance (get_task s' t) = x_instance a /\ t_digest (get_task s' t) = x_digest a /\
+   t_ops (get_task s' t) = [(mkI k (x_keys a), s_nops s)]) /\
+  task_scq s' t = k.
+Proof. exact exec_routes. Qed.
+Print Assumptions exec_routes_longest_prefix.
+
+(* and the suffix is what remains: prefix ++ suffix = instance name *)
+Theorem drop_prefix_app : forall pre l, is_prefix pre l = true -> l = pre ++ drop_prefix pre l.
+Proof. exact drop_prefix_app. Qed.
+Print Assumptions drop_prefix_app.
+
+(* reject_codes: no registered platform queue matches (and nothing to
+   deduplicate against): the selector is told Abandoned, the call returns
+   UNAVAILABLE while now < hard-failure time and FAILED_PRECONDITION
+   afterwards, and nothing is created or queued. *)
+Theorem reject_codes : forall c a s,
+  aget dkey_eqb (x_instance a, x_digest a) (s_inflight s) = None ->
+  longest_prefix_pq s (x_plat a) (x_instance a) = None ->
+  let s' := exec_start c a s in
+  s_out s' = ORet c (if s_now s <? s_hardfail s then cUNAVAILABLE else cFAILEDPRE) :: OGhost GSelAbandoned :: s_out s
+  /\ s_tasks s' = s_tasks s /\ s_ntasks s' = s_ntasks s /\ s_ops s' = s_ops s /\ s_nops s' = s_nops s
+  /\ s_inflight s' = s_inflight s /\ s_invs s' = s_invs s /\ s_scqs s' = s_scqs s /\ s_pqs s' = s_pqs s
+  /\ get_call s' c = PDone.
+Proof. exact reject_codes_exec. Qed.
+Print Assumptions reject_codes.
+
+(* the hard-failure time is start + PlatformQueueWithNoWorkersTimeout in every reachable state *)
+Theorem hardfail_const : forall cfg t0 evs,
+  let s := fst (run (init cfg t0) evs) in s_cfg s = cfg /\ s_hardfail s = t0 + cf_pq_noworkers cfg.
+Proof. exact hardfail_const. Qed.
+Print Assumptions hardfail_const.
